@@ -8,6 +8,7 @@ def run(ctx):
     # T: every call of f is gated by the harness (release order = latency pattern), failing indices,
     #    caller cancellation before / in the middle; judged by Trace_Par
     bubble_tv(ctx, "TestPar", "parallel", "Trace_Par", "tv.cfg", "par", {"n": ctx.pick(400, 4000)}, silent=False)
+    bubble_tv(ctx, "TestPar", "parallel", "Trace_Par", "tv.cfg", "par perturbed", {"n": ctx.pick(300, 3000)}, silent=False, perturb=True)
     # 'GOMAXPROCS when <= 0': the same with GOMAXPROCS below the CPU count
     bubble_tv(ctx, "TestPar", "parallel", "Trace_Par", "tv.cfg", "par gomaxprocs=3", {"n": ctx.pick(300, 3000)}, silent=False, env={"GOMAXPROCS": "3"})
     if not ctx.quick():
